@@ -436,6 +436,305 @@ theorem C05_refines_ack (st : St) (ids : List Id)
     exact Ord.rowUpdOk_complete st.db st.now _ rfl d _ (hdelivered d hd hc.1)
   · exact Ord.rowUpdOk_refl st.db st.now _ rfl d
 
+/-! ### the enqueueing of a message refines the ordered-delivery step (publish, dead-letter forward) -/
+
+section enqueue
+open Mmmbbb.Ord
+
+/-- looking a message up after another one with a fresh id was appended -/
+theorem msgById_append_of_some {db : Db} {m x : Msg} {i : Id} (h : db.msgById i = some x) :
+    ({ db with msgs := db.msgs ++ [m] } : Db).msgById i = some x := by
+  unfold Db.msgById at *
+  simp only [List.find?_append, h, Option.some_or]
+
+theorem keyOf_append_of_some {db : Db} {m : Msg} {d : Delivery} (h : (db.msgById d.msgId).isSome = true) (l : List Delivery) :
+    keyOf ({ db with msgs := db.msgs ++ [m], dels := l } : Db) d = keyOf db d := by
+  cases hx : db.msgById d.msgId with
+  | none => rw [hx] at h; cases h
+  | some x =>
+    have h2 : ({ db with msgs := db.msgs ++ [m], dels := l } : Db).msgById d.msgId = some x := by
+      unfold Db.msgById at *
+      simp only [List.find?_append, hx, Option.some_or]
+    unfold keyOf
+    rw [h2, hx]
+
+
+theorem keyOf_congr_msgs {db db' : Db} (h : db'.msgs = db.msgs) (d : Delivery) : keyOf db' d = keyOf db d := by
+  unfold keyOf Db.msgById; rw [h]
+
+theorem liveOrd_congr_subs {db db' : Db} (h : db'.subs = db.subs) (x : Id) : liveOrd db' x = liveOrd db x := by
+  unfold liveOrd; rw [h]
+
+theorem cands_append_other (db' : Db) (T pre : List Delivery) (r : Delivery) (h : ∀ p ∈ pre, p.subId ≠ r.subId) :
+    cands db' (T ++ pre) r = cands db' T r := by
+  unfold cands
+  rw [List.filter_append]
+  have : pre.filter (fun e => e.subId == r.subId && decide (r.publishedAt < e.expiresAt) && (keyOf db' e == keyOf db' r)) = [] := by
+    apply List.filter_eq_nil_iff.mpr
+    intro p hp
+    have := h p hp
+    simp [this]
+  rw [this, List.append_nil]
+
+theorem cands_congr (db db' : Db) (hm : db'.msgs = db.msgs) (T : List Delivery) (r : Delivery) :
+    cands db' T r = cands db T r := by
+  unfold cands
+  apply List.filter_congr
+  intro e _
+  rw [keyOf_congr_msgs hm e, keyOf_congr_msgs hm r]
+
+
+/-- one row made by `mkDelivery` for the accepted forward `f` satisfies the new-row obligation and the
+    clock assumption, against a table that consists of the old rows (all stamped earlier) and rows of
+    other subscriptions -/
+theorem rowNew_mkDelivery (db db' : Db) (s : Sub) (m : Msg) (now : Time) (f : Fwd) (pre : List Delivery)
+    (hmsg : db.msgById m.id = some m) (hs : s ∈ db.subs) (hlive : s.live = true)
+    (huniq : ∀ a ∈ db.subs, ∀ b ∈ db.subs, a.live = true → b.live = true → a.id = b.id → a = b)
+    (hclock : ∀ d ∈ db.dels, d.publishedAt < now)
+    (hsubs' : db'.subs = db.subs) (hmsgs' : db'.msgs = db.msgs)
+    (hpre : ∀ p ∈ pre, p.subId ≠ s.id ∧ p.id ≠ f.newId)
+    (hfresh : ∀ e ∈ db.dels, e.id ≠ f.newId)
+    (hok : predChoiceOk db s m now f.nb = true) :
+    rowNewOk now db' now (db.dels ++ pre) (mkDelivery s m now f) = true ∧
+    stampOk db' (db.dels ++ pre) (mkDelivery s m now f) = true := by
+  have hpre1 : ∀ p ∈ pre, p.subId ≠ (mkDelivery s m now f).subId := fun p hp => (hpre p hp).1
+  constructor
+  · unfold rowNewOk
+    simp only [Bool.and_eq_true, decide_eq_true_eq]
+    refine ⟨⟨⟨⟨⟨⟨Int.le_refl _, Int.le_refl _⟩, ?ttl⟩, rfl⟩, rfl⟩, ?fresh⟩, ?link⟩
+    case ttl =>
+      rw [hsubs']
+      apply List.all_eq_true.mpr
+      intro s' hs'
+      cases hl : s'.live with
+      | false => simp
+      | true =>
+        by_cases hid : s'.id = s.id
+        · have : s' = s := huniq s' hs' s hs hl hlive hid
+          subst this
+          simp [mkDelivery]
+        · have : (s'.id == (mkDelivery s m now f).subId) = false := by simpa [mkDelivery] using hid
+          simp [this]
+    case fresh =>
+      apply List.all_eq_true.mpr
+      intro e he
+      rcases List.mem_append.mp he with h1 | h1
+      · simpa [mkDelivery] using hfresh e h1
+      · simpa [mkDelivery] using (hpre e h1).2
+    case link =>
+      rw [liveOrd_congr_subs hsubs', keyOf_congr_msgs hmsgs']
+      cases hlo : liveOrd db (mkDelivery s m now f).subId with
+      | false => simp
+      | true =>
+        cases hkk : keyOf db (mkDelivery s m now f) with
+        | none => simp
+        | some k =>
+          simp only [Bool.not_true, Bool.false_or, Option.isNone_some]
+          -- the key is the message's key
+          have hne : k ≠ "" := by
+            intro h0; subst h0
+            unfold keyOf at hkk
+            simp only [mkDelivery, hmsg] at hkk
+            cases hok2 : m.orderKey with
+            | none => rw [hok2] at hkk; cases hkk
+            | some k' =>
+              rw [hok2] at hkk
+              simp only at hkk
+              split at hkk
+              · cases hkk
+              · rename_i hk'; injection hkk with hkk; subst hkk; simp at hk'
+          have hmk : m.orderKey = some k := by
+            obtain ⟨dm, hdm, hdk⟩ := (keyOf_eq_some_iff (db := db) (e := mkDelivery s m now f) hne).mp hkk
+            simp only [mkDelivery] at hdm
+            rw [hmsg] at hdm; injection hdm with hdm; subst hdm; exact hdk
+          have hord : s.ordered = true := by
+            obtain ⟨s', hs', hid, hl', ho'⟩ := (liveOrd_iff db _).mp hlo
+            have : s' = s := huniq s' hs' s hs hl' hlive (by simpa [mkDelivery] using hid)
+            subst this; exact ho'
+          have hc := C05_link_clause_of_enqueue_check db s m now f k hmsg hmk hne hord hok
+          rw [cands_congr db db' hmsgs', cands_append_other db db.dels pre _ hpre1]
+          exact hc
+  · unfold stampOk
+    rw [liveOrd_congr_subs hsubs']
+    cases hlo : liveOrd db (mkDelivery s m now f).subId with
+    | false => simp
+    | true =>
+      cases hkk : keyOf db' (mkDelivery s m now f) with
+      | none => simp
+      | some k =>
+        simp only [Bool.not_true, Bool.false_or, Option.isNone_some]
+        apply List.all_eq_true.mpr
+        intro e he
+        rcases List.mem_append.mp he with h1 | h1
+        · have := hclock e h1
+          simp [mkDelivery, this]
+        · have := hpre1 e h1
+          simp [this]
+
+
+theorem appendOk_mkRows (db db' : Db) (subs : List Sub) (m : Msg) (now : Time)
+    (hmsg : db.msgById m.id = some m)
+    (hsubs : ∀ s ∈ subs, s ∈ db.subs ∧ s.live = true)
+    (huniq : ∀ a ∈ db.subs, ∀ b ∈ db.subs, a.live = true → b.live = true → a.id = b.id → a = b)
+    (hclock : ∀ d ∈ db.dels, d.publishedAt < now)
+    (hsubs' : db'.subs = db.subs) (hmsgs' : db'.msgs = db.msgs) :
+    ∀ (fwds : List Fwd) (rows pre : List Delivery), mkRows db subs m now fwds = .ok rows →
+      (∀ p ∈ pre, ∀ f ∈ fwds, p.subId ≠ f.subId ∧ p.id ≠ f.newId) →
+      (fwds.map (·.newId)).Nodup → (fwds.map (·.subId)).Nodup →
+      (∀ f ∈ fwds, ∀ e ∈ db.dels, e.id ≠ f.newId) →
+      appendOk true now db' now (db.dels ++ pre) rows = true := by
+  intro fwds
+  induction fwds with
+  | nil =>
+    intro rows pre h _ _ _ _
+    unfold mkRows at h
+    injection h with h; subst h
+    rfl
+  | cons f t ih =>
+    intro rows pre h hpre hn1 hn2 hfresh
+    unfold mkRows at h
+    split at h
+    · cases h
+    · rename_i s hs
+      split at h
+      · cases h
+      · split at h
+        · cases h
+        · rename_i hpred
+          split at h
+          · cases h
+          · rename_i rest hrest
+            injection h with h; subst h
+            have hsid : s.id = f.subId := by
+              have := List.find?_some hs
+              simpa using this
+            have hsm : s ∈ subs := List.mem_of_find?_eq_some hs
+            obtain ⟨hsdb, hslive⟩ := hsubs s hsm
+            have hok : predChoiceOk db s m now f.nb = true := by simpa using hpred
+            have hrow := rowNew_mkDelivery db db' s m now f pre hmsg hsdb hslive huniq hclock hsubs' hmsgs'
+              (fun p hp => by
+                have := hpre p hp f (List.mem_cons_self ..)
+                exact ⟨by rw [hsid]; exact this.1, this.2⟩)
+              (fun e he => hfresh f (List.mem_cons_self ..) e he) hok
+            simp only [List.map_cons, List.nodup_cons] at hn1 hn2
+            unfold appendOk
+            simp only [Bool.and_eq_true, Bool.not_true, Bool.false_or]
+            refine ⟨⟨hrow.1, hrow.2⟩, ?_⟩
+            rw [List.append_assoc]
+            refine ih rest (pre ++ [mkDelivery s m now f]) hrest ?_ hn1.2 hn2.2
+              (fun g hg e he => hfresh g (List.mem_cons_of_mem _ hg) e he)
+            intro p hp g hg
+            rcases List.mem_append.mp hp with h1 | h1
+            · exact hpre p h1 g (List.mem_cons_of_mem _ hg)
+            · simp only [List.mem_singleton] at h1
+              subst h1
+              simp only [mkDelivery]
+              constructor
+              · intro heq
+                exact hn2.1 (List.mem_map.mpr ⟨g, hg, by rw [← heq, hsid]⟩)
+              · intro heq
+                exact hn1.1 (List.mem_map.mpr ⟨g, hg, heq.symm⟩)
+
+
+/-- **the enqueueing of one message refines the ordered-delivery step** (`deliverAll`, used by publish
+    and by every dead-letter forward): for a message that is in the table, onto live subscriptions with
+    unique ids, at an instant later than the stamps of the rows already there (the clock assumption
+    of `C05_ordered_partial`) -/
+theorem C05_refines_enqueue (db db' : Db) (subs : List Sub) (m : Msg) (now : Time) (fwds : List Fwd) (w : List Id)
+    (h : deliverAll db subs m now fwds = .ok (db', w))
+    (hmsg : db.msgById m.id = some m)
+    (hsubs : ∀ s ∈ subs, s ∈ db.subs ∧ s.live = true)
+    (huniq : ∀ a ∈ db.subs, ∀ b ∈ db.subs, a.live = true → b.live = true → a.id = b.id → a = b)
+    (hclock : ∀ d ∈ db.dels, d.publishedAt < now) :
+    Ord.stepOk true db now db' now = true := by
+  obtain ⟨rows, hrows, hdb', _⟩ := deliverAll_shape h
+  obtain ⟨hn2, _, hn1, hfresh⟩ := deliverAll_checks h
+  subst hdb'
+  refine Ord.stepOk_of_append true db now _ now rows (Int.le_refl _) rfl rfl (fun d _ => rfl) ?_
+  have := appendOk_mkRows db { db with dels := db.dels ++ rows } subs m now hmsg hsubs huniq hclock rfl rfl fwds rows [] hrows
+    (fun p hp => by cases hp) ((nodupIds_iff _).mp hn1) ((nodupIds_iff _).mp hn2)
+    (fun f hf e he heq => by
+      have hc := hfresh f hf
+      have : db.allIds.contains f.newId = true := by
+        apply List.elem_eq_true_of_mem
+        unfold Db.allIds
+        simp only [List.mem_append, List.mem_map]
+        left; right
+        exact ⟨e, he, heq⟩
+      rw [this] at hc; cases hc)
+  simpa using this
+
+
+theorem liveSubsOf_mem {db : Db} {tid : Id} {s : Sub} (h : s ∈ db.liveSubsOf tid) : s ∈ db.subs ∧ s.live = true := by
+  unfold Db.liveSubsOf at h
+  have := List.mem_filter.mp h
+  simp only [Bool.and_eq_true] at this
+  exact ⟨this.1, this.2.2⟩
+
+theorem publishOne_shape {db db' : Db} {t : Topic} {now : Time} {pm : PubMsg} {w : List Id}
+    (h : publishOne db t now pm = .ok (db', w)) :
+    ∃ (m : Msg) (db1 : Db), m.id = pm.id ∧ db1 = { db with msgs := db.msgs ++ [m] } ∧
+      db.allIds.contains pm.id = false ∧ deliverAll db1 (db1.liveSubsOf t.id) m now pm.fwds = .ok (db', w) := by
+  unfold publishOne at h
+  split at h
+  · cases h
+  · rename_i hf
+    exact ⟨_, _, rfl, rfl, by simpa using hf, h⟩
+
+/-- **publishing one message refines the ordered-delivery step**: `PublishMessage.Execute` inserts the
+    message and enqueues it (`publishOne`); with referential integrity of the deliveries table, unique
+    subscription ids and the clock assumption, the step from the table before to the table after
+    satisfies `Ord.stepOk` — so histories of such publishes, acknowledgements of handed-out
+    deliveries, deadline changes, clock advances and the control-plane operations proved above fall
+    under `C05_ordered_partial` without any run-time check. -/
+theorem C05_refines_publish_one (db db' : Db) (t : Topic) (now : Time) (pm : PubMsg) (w : List Id)
+    (h : publishOne db t now pm = .ok (db', w))
+    (hfk : ∀ d ∈ db.dels, (db.msgById d.msgId).isSome = true)
+    (huniq : ∀ a ∈ db.subs, ∀ b ∈ db.subs, a.live = true → b.live = true → a.id = b.id → a = b)
+    (hclock : ∀ d ∈ db.dels, d.publishedAt < now) :
+    Ord.stepOk true db now db' now = true := by
+  obtain ⟨m, db1, hmid, hdb1, hfreshm, h⟩ := publishOne_shape h
+  have hmsg : db1.msgById m.id = some m := by
+    rw [hdb1]
+    unfold Db.msgById
+    simp only [List.find?_append]
+    have hnone : db.msgs.find? (fun x => x.id == m.id) = none := by
+      apply List.find?_eq_none.mpr
+      intro x hx hxe
+      have : db.allIds.contains pm.id = true := by
+        apply List.elem_eq_true_of_mem
+        unfold Db.allIds
+        simp only [List.mem_append, List.mem_map]
+        left; left; right
+        exact ⟨x, hx, by rw [← hmid]; simpa using hxe⟩
+      rw [this] at hfreshm; cases hfreshm
+    rw [hnone]
+    simp
+  have hsubs1 : db1.subs = db.subs := by rw [hdb1]
+  have hdels1 : db1.dels = db.dels := by rw [hdb1]
+  obtain ⟨rows, hrows, hdb', _⟩ := deliverAll_shape h
+  obtain ⟨hn2, _, hn1, hfresh⟩ := deliverAll_checks h
+  have happ := appendOk_mkRows db1 db' (db1.liveSubsOf t.id) m now hmsg
+    (fun s hs => liveSubsOf_mem hs) (by rw [hsubs1]; exact huniq) (by rw [hdels1]; exact hclock)
+    (by rw [hdb']) (by rw [hdb']) pm.fwds rows [] hrows
+    (fun p hp => by cases hp) ((nodupIds_iff _).mp hn1) ((nodupIds_iff _).mp hn2)
+    (fun f hf e he heq => by
+      have hc := hfresh f hf
+      have : db1.allIds.contains f.newId = true := by
+        apply List.elem_eq_true_of_mem
+        unfold Db.allIds
+        simp only [List.mem_append, List.mem_map]
+        left; right
+        exact ⟨e, he, heq⟩
+      rw [this] at hc; cases hc)
+  rw [List.append_nil, hdels1] at happ
+  refine Ord.stepOk_of_append true db now db' now rows (Int.le_refl _) (by rw [hdb', hdels1]) (by rw [hdb', hsubs1]) ?_ happ
+  intro d hd
+  rw [hdb', hdb1]
+  exact keyOf_append_of_some (hfk d hd) _
+
+end enqueue
+
 /-- non-vacuity: an ordered subscription, two messages of key "k" in one request, the first is pulled
     and acknowledged, then the second is pulled — every step satisfies the obligation (and while the
     first is outstanding the model's pull is given, and accepts, only the first as candidate) -/
